@@ -190,6 +190,10 @@ class FatIO(io.RawIOBase):
         if not self.writable():
             raise IOError('Cannot write to read-only file!')
 
+        if self.mode.appending:
+            # Writes always go to the end of the file in append mode
+            self.seek(0, 2)
+
         sz = len(__b)
         cluster = self.dir_entry.get_cluster()
         if sz == 0:
